@@ -116,6 +116,9 @@ def export_layout(s, obj, des):
     children = list(obj.children.values())
     wid = des['_wid']
     syms = []
+    objidx = {}
+    for i, o in enumerate(s.objs):
+        objidx.setdefault(id(o), i)
     for o in s.objs:
         ins, outs = [], []
         if isinstance(o, S.InPortSymbol):
@@ -154,7 +157,7 @@ def export_layout(s, obj, des):
         row = []
         for c in range(nc):
             e = s.symbol_matrix[r, c]
-            row.append(-1 if e is None else (_idx(s.objs, e) if _idx(s.objs, e) >= 0 else len(s.objs)))
+            row.append(-1 if e is None else objidx.get(id(e), len(s.objs)))
         mat.append(row)
     nets = []
     for n in s.nets:
@@ -170,8 +173,8 @@ def export_layout(s, obj, des):
             path = [(_int(a), _int(b)) for a, b in zip(n.x, n.y)]
         else:
             path = []
-        nets.append(dict(wire=wid.get(id(n.wire), -1), src=_idx(s.objs, n.source), sp=pidx(n.source, n.sourcePort, True),
-                         snk=_idx(s.objs, n.sink), tp=pidx(n.sink, n.sinkPort, False), path=path))
+        nets.append(dict(wire=wid.get(id(n.wire), -1), src=objidx.get(id(n.source), -1), sp=pidx(n.source, n.sourcePort, True),
+                         snk=objidx.get(id(n.sink), -1), tp=pidx(n.sink, n.sinkPort, False), path=path))
     tracks = []
     fbt = 0
     for ch in s.channels:
@@ -272,8 +275,8 @@ class Batch:
         # the interpreted checker costs about (symbols/500)^2 seconds on a layout: keep its total inside the tier's wall time
         q = tier == 'quick'
         self.cap = 2.5 if q else 25.0                   # per layout
-        self.budgets = {'library': 25.0 if q else 330.0, 'random-plain': 25.0 if q else 330.0, 'exhaustive-small': 10.0 if q else 60.0}
-        self.other_budget = 10.0 if q else 60.0         # per remaining stream
+        self.budgets = {'library': 25.0 if q else 220.0, 'random-plain': 25.0 if q else 220.0, 'exhaustive-small': 10.0 if q else 40.0}
+        self.other_budget = 10.0 if q else 40.0         # per remaining stream
 
     def add(self, spec, stream, obj=None, path=(), premise_expected=True):
         res = self.res
@@ -324,6 +327,9 @@ class Batch:
                 if min(self.consts[1:]) < 0:
                     res.disagree('place-model', dict(what='a layout constant is negative: hypothesis Cfg.NonNeg of placement_apart fails',
                                                      consts=self.consts))
+            if len(s.objs) > 8000 and stream not in ('corpus', 'replay'):
+                res.hist('checker_budget_skipped', f"{stream}:{len(s.objs) // 1000 * 1000}+ symbols")
+                continue
             try:
                 L = export_layout(s, blk, des)
             except NotExportable as e:
@@ -516,7 +522,7 @@ def main(res, tier, rng, replay):
 
     # ---- every structural block of the library (and every structural block inside it) at sampled widths / arities
     lib = G.library_cases(rng, tier)
-    lim_s = 40 if quick else 600
+    lim_s = 40 if quick else 330
     t0 = time.time()
     for i, sp in enumerate(lib):
         if time.time() - t0 > lim_s:
@@ -539,10 +545,10 @@ def main(res, tier, rng, replay):
     res.cov['exhaustive_small_specs'] = len(ex)
 
     # ---- seeded random netlists outside the known-finding classes (the main failing-input search)
-    n_plain = 1000 if quick else 12000
+    n_plain = 1000 if quick else 9000
     sizes = [1, 2, 3, 4, 6, 8, 10, 14] if quick else [1, 2, 3, 4, 5, 6, 8, 10, 12, 16, 20, 28, 40]
     profiles = [{}, {'fb': 40}, {'far': 90, 'fan': 60}, {'fb': 0, 'far': 0}, {'fan': 80}]
-    lim_s = 35 if quick else 700
+    lim_s = 35 if quick else 330
     t0 = time.time()
     for i in range(n_plain):
         if time.time() - t0 > lim_s:
@@ -557,7 +563,7 @@ def main(res, tier, rng, replay):
             B.run()
 
     # ---- the known-finding classes: duplicate sinks, self loops (still checked: anything outside the listed class is a violation)
-    n_cls = 60 if quick else 1500
+    n_cls = 60 if quick else 600
     for i in range(n_cls):
         r = rng.fork(('dups', i))
         B.add(G.random_plan(r, r.choice(sizes[:8]), {'fan': 70, 'self': 0, 'free': 0}), 'random-dupsink')
@@ -566,7 +572,7 @@ def main(res, tier, rng, replay):
         B.add(G.random_plan(r, r.choice(sizes[:8]), {'fan': 0, 'self': 35, 'fb': 30, 'free': 0}), 'random-selfloop')
 
     # ---- outside the premise (undriven inputs): termination only; the layout is not judged
-    n_free = 40 if quick else 800
+    n_free = 40 if quick else 400
     for i in range(n_free):
         r = rng.fork(('free', i))
         B.add(G.random_plan(r, r.choice(sizes[:8]), {'free': 15, 'self': 0}), 'random-undriven', premise_expected=False)
